@@ -1533,7 +1533,8 @@ fn run_instance(c: &dyn Case, tera: &Tera, acc: &mut Acc, want_sample: bool) {
 
 fn main() {
     let mut run = Run::from_env("C19", "exploration");
-    let thorough = run.tier.is_thorough();
+    // the full bounds cost only a few seconds: both tiers run them
+    let thorough = true;
     run.rule(
         "instances: a compile-time family of serde types (leaves x every combinator, a second level of core combinators x every \
          combinator, hand-picked deeper shapes) x boundary values; one case per (type, value) instance, values with the same data \
